@@ -219,7 +219,7 @@ pub fn generate(mode: Mode, rng: &mut Rng, idx: usize, _tier: Tier) -> CaseOut {
     let knobs = match mode {
         Mode::Blocks => Knobs { rich_tags: rng.chance(1, 3), multiline_ws: true, lookalikes: rng.chance(1, 3), max_depth: 4, langs: all, echo: true },
         Mode::Tags => Knobs { rich_tags: true, multiline_ws: true, lookalikes: true, max_depth: 1, langs: tag_langs, echo: false },
-        Mode::Damaged => Knobs { rich_tags: false, multiline_ws: false, lookalikes: false, max_depth: 3, langs: all, echo: false },
+        Mode::Damaged => Knobs { rich_tags: idx % 2 == 0, multiline_ws: false, lookalikes: false, max_depth: if idx % 4 == 0 { 0 } else { 3 }, langs: all, echo: false },
     };
     let lang = lang(knobs.langs[idx % knobs.langs.len()]);
     let mut knobs = knobs;
@@ -247,18 +247,19 @@ pub fn generate(mode: Mode, rng: &mut Rng, idx: usize, _tier: Tier) -> CaseOut {
     let mut tags = vec![format!("lang:{}", lang.name), format!("blocks:{}", r.blocks.len().min(6)), format!("crlf:{crlf}")];
     let mut damage = None;
     if mode == Mode::Damaged {
-        // delete or duplicate one tag occurrence
+        // delete or duplicate one tag occurrence: start tags by their by-construction extent, end tags by
+        // their grammar (any inner whitespace), inside comments only
         let mut occ: Vec<(usize, usize)> = Vec::new();
-        for pat in ["<block", "</block>"] {
-            let mut from = 0;
-            while let Some(i) = text[from..].find(pat) {
-                let at = from + i;
-                let len = if pat == "</block>" { 8 } else { text[at..].find('>').map(|e| e + 1).unwrap_or(6) };
-                // only tags that sit inside a comment (decoys in string literals are not tags)
-                if r.spans.iter().any(|s| s.lo <= at && at < s.hi) {
-                    occ.push((at, len));
-                }
-                from = at + 1;
+        let line_starts: Vec<usize> = std::iter::once(0).chain(text.match_indices('\n').map(|(i, _)| i + 1)).collect();
+        let off = |p: (usize, usize)| line_starts[p.0 - 1] + p.1 - 1;
+        for b in &r.blocks {
+            let (lo, hi) = (off(b.ts), off(b.te) + 1);
+            occ.push((lo, hi - lo));
+        }
+        let end_re = regex::Regex::new(r"<\s*/\s*block\s*>").unwrap();
+        for m in end_re.find_iter(&text) {
+            if r.spans.iter().any(|s| s.lo <= m.start() && m.start() < s.hi) {
+                occ.push((m.start(), m.end() - m.start()));
             }
         }
         if !occ.is_empty() {
